@@ -241,6 +241,22 @@ func compareTable(c *fw.Ctx, rule, what string, fn *ssa.Function, resIdx int, va
 		_, ok := env0(atom)
 		return ok
 	})
+	// `return helper(...)` into an unexported helper the oracle does not name: use the helper's rows
+	oracleOutcomes := map[string]bool{}
+	enumerate(vars, func(a asg) { oracleOutcomes[oracle(a)] = true })
+	t.InlineTailCalls(func(f *ssa.Function) int {
+		if resIdx < f.Signature.Results().Len() {
+			return resIdx
+		}
+		return fw.ErrIndex(f)
+	}, func(r fw.Row) bool { return oracleOutcomes[rowValue(r)] })
+	t.ExpandUnknown(func(atom string) bool {
+		if ip.expand != nil && ip.expand(atom) && fw.AtomCallsUnexportedHelper(atom) {
+			return false
+		}
+		_, ok := env0(atom)
+		return ok
+	})
 	t.SplitBoolValues(func(atom string) bool { _, ok := env0(atom); return ok })
 	c.SawFn(fw.FuncName(fn))
 	if ip.free != nil {
